@@ -307,7 +307,12 @@ def request_strategy(table, mps, present_percent=None):
         L = len(table[key]) if key in table else 18
         near = sorted({max(1, v) for v in (L - 1, L, L + 1, mps, 2 * mps, L + mps, (L // mps) * mps, (L // mps + 1) * mps,
                                            255, 256, 0xFFFF, 1)})
-        return st.one_of(st.sampled_from(near), st.integers(1, 400))
+        # large wLength (a host reading into a 512 B .. 32 KiB buffer asks for the buffer size): m * 2^n + d with d
+        # from just below the boundary to just past descriptor + one packet, so that wLength - offset crosses every
+        # power-of-two boundary of the 16-bit field at some packet offset inside the descriptor; plus the whole range
+        big = st.tuples(st.integers(8, 15), st.integers(1, 255), st.integers(-2, L + mps + 1)).map(
+            lambda x: min(0xFFFF, max(1, ((x[1] << x[0]) & 0xFFFF) + x[2])))
+        return st.one_of(st.sampled_from(near), st.integers(1, 400), big, st.integers(1, 0xFFFF))
 
     present = st.sampled_from(keys)
     types = sorted({k[0] for k in keys})
@@ -335,7 +340,9 @@ class PoolSub(Sub):
             "with runtime descriptors, built by StandardRequestHandler.get_descriptor_handler_submodule for 8 fixed "
             "collections (consecutive and sparse indices, single descriptor, lengths 1..300 incl. exact multiples of "
             "the packet size) x mps 8/16/32/64 (26 elaborations). 1-4 requests per case (existing / non-existing near "
-            "misses, wLength around the descriptor length, multiples of mps, 255, 0xFFFF), lost-ACK retries, PHY stalls. "
+            "misses, wLength around the descriptor length, multiples of mps, 255, 0xFFFF, any value 1..0xFFFF, and large "
+            "buffer sizes m*2^n (n 8..15) -2..+len+mps+1 so the remaining count crosses every power-of-two boundary "
+            "inside the descriptor), lost-ACK retries, PHY stalls. "
             "Oracle: each start yields exactly the model's packet desc[pos:min(pos+mps,min(wLength,len))], a ZLP when "
             "the total is a non-zero multiple of mps below wLength, the stage completes, missing descriptors stall "
             "without data, existing ones never stall. Non-trivial = total a multiple of mps, or wLength < length, or "
@@ -788,7 +795,8 @@ class DeviceSub(Sub):
     rule = ("whole device: USBDevice(bare UTMI, full speed) + standard control endpoint (add_standard_control_endpoint / "
             "USBControlEndpoint(max_packet_size).add_standard_request_handlers, avoid_blockram False/True) for 8 (collection, ep0 packet size 8/16/32/64, handler block/distributed/mux/distributed-with-"
             "runtime) configurations, address 0. A closed-loop host issues 2-6 control transfers: GET_DESCRIPTOR (existing / "
-            "near-miss non-existing, wLength around the length, multiples of mps, 255, 0xFFFF) read with IN tokens in "
+            "near-miss non-existing, wLength around the length, multiples of mps, 255, 0xFFFF, any value 1..0xFFFF, large "
+            "buffer sizes m*2^n-2..+len+mps+1) read with IN tokens in "
             "packet-size pieces with lost-ACK retries, each either completed with its status stage or ABANDONED (after 0-5 "
             "acknowledged packets, optionally after one more un-acknowledged packet, or after the whole data stage without "
             "status stage) and directly followed by the next SETUP; other standard requests (GET_STATUS, "
